@@ -89,10 +89,10 @@ impl Writer {
             let mut sealed = block.clone();
             sealed.used = *cur;
             if let Err(e) = sealed.mmap.flush() {
-                FileStateTracker::set_block_unlocked(new_block.id as usize);
+                FileStateTracker::set_block_unlocked(&new_block.file_path);
                 return Err(e);
             }
-            FileStateTracker::set_block_unlocked(block.id as usize);
+            FileStateTracker::set_block_unlocked(&block.file_path);
             // A block without entries is not published: recovery cannot see it either (it
             // has no header), and chain positions persisted by readers must mean the same
             // before and after a restart.
@@ -275,11 +275,11 @@ impl Writer {
                 let mut sealed = block.clone();
                 sealed.used = planning_offset;
                 if let Err(e) = sealed.mmap.flush() {
-                    FileStateTracker::set_block_unlocked(new_block.id as usize);
+                    FileStateTracker::set_block_unlocked(&new_block.file_path);
                     revert_info.rollback(&mut *cur_offset);
                     return Err(e);
                 }
-                FileStateTracker::set_block_unlocked(block.id as usize);
+                FileStateTracker::set_block_unlocked(&block.file_path);
                 // see Writer::write: empty blocks are not published
                 if sealed.used > 0 {
                     let _ = self.reader.append_block_to_chain(&self.col, sealed);
